@@ -113,10 +113,14 @@ class Exec:
             if op["a"] == op["b"]:
                 raise Skip()
             out = {}
-            if op.get("live") is not None:  # history-making call on the live bodies
-                cs = hc.find_contact_surface(ea["obj"], eb["obj"], use_aabb_trees=bool(op["live"] == "tree"))
+            if op.get("live") is not None:  # history-making calls on the live bodies, both broad phases (seeded order)
+                res = {}
+                for mode in ((True, False) if op["live"] == "tree" else (False, True)):
+                    cs = hc.find_contact_surface(ea["obj"], eb["obj"], use_aabb_trees=mode)
+                    res[mode] = sorted([int(i), int(j)] for i, j in zip(cs.intersecting_tetrahedra1,
+                                                                       cs.intersecting_tetrahedra2))
                 ea["reexpressed"] = True
-                out["live_n"] = int(len(cs.intersecting_tetrahedra1))
+                out["live_tree"], out["live_brute"] = res[True], res[False]
             fa, fb = op.get("frame_a"), op.get("frame_b")
             cs1 = hc.find_contact_surface(self.twin(ea, fa), self.twin(eb, fb), use_aabb_trees=False)
             cs2 = hc.find_contact_surface(self.twin(ea, fa), self.twin(eb, fb), use_aabb_trees=True)
